@@ -8,10 +8,13 @@ it delivers with an independent reader of the documented syntax (harness/_C09_re
       source text is one symbolic string.
   K2  symbol-reference fragments: symbol_syntax.split, the three token forms of
       parse_string.parse_fragments_from_token, whole-token references.  Token text symbolic.
+      K2:concat: tokens of TWO adjacent fragments, both quote forms symbolic, both texts masks (the Token
+      is built as the tokenizer builds it: source_string = the written fragments).
   K3  denotation: the real string parsers (parse_string_from_token_parser, RichStringParser,
       SymbolReferenceOrStringParser) on tokens made of differently quoted adjacent fragments followed by a
       next token / end of line: fragments and references of the delivered StringSdv, its resolved value,
-      and the token that follows.
+      and the token that follows.  K3:mix / K5:list:mix: tokens that mix hard-quoted fragments with other
+      fragments and contain reference syntax, outside the region C09-concat-quote-type (e.g. `'@[A]@'.txt`).
   K4  here-document through the real RichStringParser: body, end marker, what follows, missing marker,
       superfluous arguments; after the end marker the SAME stream must deliver exactly the tokens of the
       text that follows (raw-line consumption and token look-ahead share one lexer).
@@ -480,21 +483,18 @@ def k2_forms(h: str) -> bool:
     return ob.post(_k2_forms_check(_k2_text(h)))
 
 
-K2C_ALPHABET = '@[]a'
-FORMS = (ref.NAKED, ref.SOFT, ref.HARD)
-
-
 def _form(f: int) -> str:
     return ref.NAKED if f == 0 else (ref.SOFT if f == 1 else ref.HARD)
 
 
 def _pre_k2c(h: str, t: str, f1: int, f2: int) -> bool:
     c = ob.case()
-    if not _holes_ok(h, c['mask']) or len(t) > c['tlen'] or not _in_alphabet(t, K2C_ALPHABET):
+    if not _holes_ok(h, c['mask']) or not _holes_ok(t, c['tmask']):
         return False
     if not (0 <= f1 <= 2 and 0 <= f2 <= 2):
         return False
     s = _fill(c['mask'], h)
+    t = _fill(c['tmask'], t)
     if (f1 == 0 and s == '') or (f2 == 0 and t == '') or (f1 == 0 and f2 == 0):
         return False  # a naked fragment is not empty; two adjacent naked fragments are one fragment
     parts = [(_form(f1), s), (_form(f2), t)]
@@ -533,7 +533,7 @@ def k2_concat(h: str, t: str, f1: int, f2: int) -> bool:
     pre: _pre_k2c(h, t, f1, f2)
     post: _
     """
-    return ob.post(_k2_concat_check(_fill(ob.case()['mask'], h), t, f1, f2))
+    return ob.post(_k2_concat_check(_fill(ob.case()['mask'], h), _fill(ob.case()['tmask'], t), f1, f2))
 
 
 def _k2_obligations(tier: str) -> List[Ob]:
@@ -553,21 +553,22 @@ def _k2_obligations(tier: str) -> List[Ob]:
                      ['%%%%%', '@[%%%]@', '%@[%]@%'],
                      fn='k2_forms', kernel='K2', real=REAL_K2F, entry='parse_string.parse_fragments_from_token',
                      bound_suffix='; as naked, soft-quoted and hard-quoted token')
-    # two adjacent fragments: (form, text) x (form, text), forms and the second text symbolic
-    k2c_quick = [('', 2), ('%', 2), ('%%', 1), ('@[%]@', 2), ('%@[a]@', 1), ('@[a]@%', 1), ('@[%]@', 5)]
-    k2c_thorough = [('%%%', 2), ('@[%%]@', 2), ('%@[%]@%', 1), ('%%', 5)]
-    for m, tl in k2c_quick + (k2c_thorough if tier != 'quick' else []):
+    # two adjacent fragments (form, text)(form, text): both forms symbolic, both texts given by masks
+    k2c_quick = [('', '%'), ('%', '%'), ('%%', '%'), ('%', '%%'), ('@[%]@', '%'), ('%', '@[%]@'), ('%@[a]@', '%'),
+                 ('@[a]@%', '%'), ('@[%]@', '@[a]@'), ('@[a]@', '')]
+    k2c_thorough = [('%%', '%%'), ('%%%', '%'), ('@[%%]@', '%'), ('%', '@[%%]@'), ('%@[%]@', '%'), ('@[%]@', '@[%]@')]
+    for m, tm in k2c_quick + (k2c_thorough if tier != 'quick' else []):
         obs.append(Ob(
-            name='K2:concat:%s-t%d' % (_mask_name(m) or 'empty', tl), fn='k2_concat', case=dict(mask=m, tlen=tl),
-            kernel='K2',
-            bound=_mask_bound(m) + '; written in each of the forms naked, soft-quoted, hard-quoted and followed, without '
-                  'space, by a second fragment in each of the three forms whose text is every string of <= %d characters '
-                  'over {@, [, ], a}: hard-quoted text is constant, the other text is split into constants and '
-                  'references' % tl,
+            name='K2:concat:%s+%s' % (_mask_name(m) or 'empty', _mask_name(tm) or 'empty'), fn='k2_concat',
+            case=dict(mask=m, tmask=tm), kernel='K2',
+            bound='a token of two adjacent fragments: the first is ' + _mask_bound(m) + ', the second is ' + _mask_bound(tm) +
+                  '; each written in each of the forms naked, soft-quoted, hard-quoted (forms symbolic): hard-quoted text '
+                  'is constant, the other text is split into constants and references',
             timeout=300, real=REAL_K2F, entry='parse_string.parse_fragments_from_token(Token(type, string, source_string))',
             outside=('a reference split over the two fragments',
                      'a naked whole reference with a quotation glued to it (parse_sym_ref_or_fragments_from_token only)')))
-    obs.append(Ob(name='K2:concat:seeded-oracle-error', fn='k2_concat', case=dict(mask='@[%]@', tlen=1, oracle_bug=True),
+    obs.append(Ob(name='K2:concat:seeded-oracle-error', fn='k2_concat',
+                  case=dict(mask='@[%]@', tmask='%', oracle_bug=True),
                   kernel='K2', bound='seeded oracle error: the quoting of the last fragment decides for the whole token',
                   timeout=300, expect=ob.REFUTE, real=REAL_K2F))
     obs.append(Ob(name='K2:split:seeded-oracle-error', fn='k2_split', case=dict(mask='@[%]@', oracle_bug=True),
@@ -954,7 +955,7 @@ def _k3_obligations(tier: str) -> List[Ob]:
     obs += _mask_obs(tier, 'K3:mix:', K3MIX_QUICK, K3MIX_THOROUGH, fn='k3_denote', kernel='K3', real=REAL_K3,
                      entry='parse_string.parse_string_from_token_parser(new_token_parser(source)) '
                            '[entry=rich: RichStringParser, entry=either: SymbolReferenceOrStringParser]',
-                     stubs=(STUB_IO,), outside=K3_OUTSIDE, bound_suffix=_values_bound(), timeout=300)
+                     stubs=(STUB_IO,), outside=K3_OUTSIDE, bound_suffix=_values_bound(), timeout=600)
     obs.append(Ob(name='K3:mix:seeded-oracle-error', fn='k3_denote',
                   case=dict(mask="\"@[A]@\"'&'&", oracle_bug='any-hard-protects-all'), kernel='K3',
                   bound='seeded oracle error: a hard-quoted fragment anywhere in a token protects the whole token',
